@@ -38,6 +38,7 @@ KindOf(e) ==
 IsRead(op) == op \in {"length", "data", "substring"}
 Detached(e) == e.variant \in {"text/detached", "cdata/detached", "comment/detached"}
 
+AttrWs(d) == [i \in 1..Len(d) |-> IF d[i] \in {9, 10, 13} THEN 32 ELSE d[i]]
 RECURSIVE StripLeadingWs(_)
 StripLeadingWs(d) == IF d # <<>> /\ IsWs(d[1]) THEN StripLeadingWs(Tail(d)) ELSE d
 
@@ -71,13 +72,23 @@ C16Verdict(e) ==
        ELSE [v |-> "VIOLATION", why |-> "storable data refused", err |-> out.err, expected |-> r.data]
   ELSE \* success: exact effect (a PI's data begins at the first non-blank character after the target, so an
        \* implementation that drops leading white space from the data it is given stores what the text can hold)
-       IF e.post # r.data /\ ~(k = "pi" /\ e.post = StripLeadingWs(r.data)) THEN [v |-> "VIOLATION", why |-> "data after the call differs from DOM Level 1", expected |-> r.data]
+       \* (an attribute value given a literal TAB / LF / CR may read back with a space in its place: XML 1.0 3.3.3
+       \* applied to values set through the DOM, which is what a re-parse of the serialization yields)
+       IF e.post # r.data /\ ~(k = "pi" /\ e.post = StripLeadingWs(r.data)) /\ ~(k = "attr" /\ e.post = AttrWs(r.data)) THEN [v |-> "VIOLATION", why |-> "data after the call differs from DOM Level 1", expected |-> r.data]
        ELSE IF e.len # Len(e.post) THEN [v |-> "VIOLATION", why |-> "length() is not the number of characters", expected |-> Len(r.data)]
        ELSE IF c.op = "length" /\ out.n # r.n THEN [v |-> "VIOLATION", why |-> "length() result", expected |-> r.n]
        ELSE IF c.op \in {"data", "substring", "split"} /\ out.ret # r.ret THEN [v |-> "VIOLATION", why |-> "returned string", expected |-> r.ret]
        ELSE IF c.op = "split" /\ ~Detached(e) /\ ~(e.sib.adjacent /\ e.sib.listed /\ e.sib.same_parent)
             THEN [v |-> "VIOLATION", why |-> "split_text: the new node is not the next sibling under the same parent", sib |-> e.sib]
        ELSE OKV
+
+\* C13 ("value and data setters ... either performs exactly the change DOM Level 1 specifies or fails with the specified
+\* exception class (... index size ...); never panics; a call that fails leaves the document observably unchanged"): the
+\* same judgement for the calls that are mutators; what length() answers is a read and stays with C16
+C13CdVerdict(e) ==
+  IF IsRead(e.call.op) THEN OKV
+  ELSE LET v == C16Verdict(e)
+       IN  IF v.v = "VIOLATION" /\ v.why = "length() is not the number of characters" THEN OKV ELSE v
 
 \* ---------------------------------------------------------------------------------------------
 \* C15: after a call that reports success the document serializes, parses, and denotes what the DOM reports
@@ -139,7 +150,7 @@ FirstBad(f(_, _), e) ==
   IN  IF bad = {} THEN OKV ELSE f(e, FRoles[CHOOSE i \in pick : \A j \in pick : i <= j])
 
 Verdict(e) ==
-  IF e.event = "cd" THEN [c13 |-> OKV, c16 |-> C16Verdict(e), c15 |-> C15Verdict(e)]
+  IF e.event = "cd" THEN [c13 |-> C13CdVerdict(e), c16 |-> C16Verdict(e), c15 |-> C15Verdict(e)]
   ELSE IF e.event = "build" THEN BuildVerdict(e)
   ELSE IF e.event = "factory" THEN [c13 |-> FirstBad(FactoryRole, e), c16 |-> OKV, c15 |-> FirstBad(FactoryC15, e)]
   ELSE [c13 |-> OKV, c16 |-> OKV, c15 |-> OKV]
